@@ -7,7 +7,7 @@ import z3
 
 from .npmodel import LOG, PI, SQRT, join_kind
 from .state import forall, fresh_int
-from .values import (nil, NONE, Arr, EngineError, Lst, Opaque, Unsupported, cast, fresh_name, fresh_scalar, is_boolv,
+from .values import (nil, NONE, Slc, Arr, EngineError, Lst, Opaque, Unsupported, cast, fresh_name, fresh_scalar, is_boolv,
                      is_concrete, is_intv, is_numv, is_realv, is_z3, kind_of, mk_and, mk_implies, mk_ite, mk_not,
                      mk_or, num_abs, num_add, num_cmp, num_max, num_min, num_mul, num_neg, num_sub, num_truediv,
                      sort_of, sym_array, to_int_from_bool, to_real, to_z3)
@@ -178,6 +178,37 @@ class NumpyFuncs:
             return _select([cast(c.get(i), k) for c in cols], j)
 
         return Arr((n, len(cols)), get, k, own=True)
+
+    def np_stack(self, st, args, kw, node):
+        axis = kw.get("axis", args[1] if len(args) > 1 else 0)
+        if is_concrete(axis) and axis == 1:
+            return self.np_column_stack(st, [args[0]], {}, node)       # np.stack of 1-D arrays along axis 1 == np.column_stack
+        raise Unsupported("np.stack along this axis")
+
+    def np_empty(self, st, args, kw, node):
+        shape = self._shape_arg(args[0])
+        k = self.dtype_kind(kw.get("dtype", args[1] if len(args) > 1 else None)) or "real"
+        for d in shape:
+            self.oblige(st, num_cmp(">=", d, 0), "lib", "np.empty: non-negative dimension", node)
+        return sym_array("empty", shape, k, own=True)       # uninitialised: arbitrary contents
+
+    def np_flatnonzero(self, st, args, kw, node):
+        m = self.as_arr(args[0])
+        if m.rank != 1:
+            raise Unsupported("flatnonzero of a non-1-D array")
+        if m.kind != "bool":
+            m = Arr(m.shape, lambda i: num_cmp("!=", m.get(i), 0), "bool")
+        n = m.shape[0]
+        return self.mask_gather(st, Arr((n,), lambda i: i, "int"), m, node)     # the positions where the mask holds, in order
+
+    def np_take(self, st, args, kw, node):
+        a, idx = self.as_arr(args[0]), args[1]
+        axis = kw.get("axis", args[2] if len(args) > 2 else None)
+        if a.rank == 2 and is_concrete(axis) and axis == 1:
+            return self.index_arr(st, a, (Slc(), idx), node)
+        if a.rank == 1 and (axis is None or axis is NONE or (is_concrete(axis) and axis == 0)):
+            return self.index_arr(st, a, idx, node)
+        raise Unsupported("np.take with this axis")
 
     def np_concatenate(self, st, args, kw, node):
         parts = args[0]
